@@ -778,6 +778,9 @@ func runC13(p *Program, r *Report) {
 	}
 	c13verify(p, r, "C13.verify")
 	c14client(p, r, "C13.ext")
+	// the offer is rendered from mode.opts(): a fresh object per handshake, with both flags set exactly for the
+	// no-context-takeover mode (a shared object is rewritten by a concurrent Accept: seed C13-M)
+	shareAs(r, "C13.offer.opts", "C13.offer.opts", func(sub *Report) { c14server(p, sub, "C13.offer") })
 	cTokens(p, r, "C13.tokens")
 }
 
